@@ -28,6 +28,8 @@ let starts_with_prefix (p : key) (k : key) : bool =
     | [], _ -> true | _, [] -> false
     | a :: p', b :: k' -> int_of_n a = int_of_n b && go p' k' in go p k
 
+let rec take k l = if k = 0 then [] else match l with [] -> [] | x :: t -> x :: take (k - 1) t
+
 let run_history (cap : int) (ops : string list) : string =
   let now = ref (z_of_int 1000) in
   let y = ref (init_sys (n_of_int cap)) in
@@ -60,6 +62,14 @@ let run_history (cap : int) (ops : string list) : string =
         ignore (apply OCompact);
         if p = ["KW"] then
           emit ("win=" ^ hx (match !y.y_disk.d_snap with Some s -> s | None -> []) ^ "/" ^ hx oldlog)
+      | "W" :: mode :: rest ->
+        let cur = (match !y.y_disk.d_snap with Some s -> s | None -> []) in
+        let t = (match mode, rest with
+            | "full", _ -> cur
+            | "half", _ -> take (List.length cur / 2) cur
+            | _, [h] -> bytes_of_hex h
+            | _ -> []) in
+        y := { !y with y_disk = { !y.y_disk with d_tmp = Some t } }
       | ["RP"; pre] ->
         let pre = bytes_of_hex pre in
         let ks = List.filter (starts_with_prefix pre) (r_keys !now !y.y_mem.s_kv) in
@@ -106,7 +116,6 @@ let run_history (cap : int) (ops : string list) : string =
   String.concat " " (List.rev !out) ^ " | files=" ^ hx (match !y.y_disk.d_snap with Some s -> s | None -> [])
   ^ "/" ^ hx !y.y_disk.d_log
 
-let rec take k l = if k = 0 then [] else match l with [] -> [] | x :: t -> x :: take (k - 1) t
 
 let run_cuts (now : z) (snap : n list option) (log : n list) (cuts : int list) : string =
   String.concat ";" (List.map (fun c ->
